@@ -34,3 +34,7 @@ Definition fim_get (m : fimap) (key : string) : pyres Z :=
   else PErr EKey.
 Definition kind_name (k : kind) : string :=
   match k with KState => "state" | KGate => "gate" | KPovm => "povm" | KMproc => "mprocess" end.
+
+(* layouts: a vector that is the concatenation of the variable blocks of these kinds has this length; one operation's vector *)
+Definition layout_len (s : sizes) (l : list kind) : Z := sumz (map (size_kind s) l).
+Definition opref_len (s : sizes) (r : kind * Z) : pyres Z := py_call_size (s (fst r)) (snd r).
